@@ -4,7 +4,7 @@ From V Require Import Base.Int Base.IO.
 From V Require Import Spec.Zone.
 From V Require Import Model.TzParser Model.TzRule Model.TzLookup Model.C05.
 From V Require Model.DateTime.
-From V Require Export Proofs.C05Table Proofs.C05Spec.
+From V Require Export Proofs.C05Table Proofs.C05Spec Proofs.C05Rule.
 Import ListNotations.
 Open Scope Z_scope.
 
